@@ -15,6 +15,7 @@ import antgen, c08, common
 
 LEVEL = 'proof'
 MODULES = ['C14']
+antgen.WARM['on'] = False     # C14 builds its own histories; the write-set discovery needs plain Mininec objects
 FREQS = [3.5, 7.0, 7.1, 14.0, 21.2, 28.5]
 
 
